@@ -1524,6 +1524,20 @@ class Engine:
         return ops.compare(sym, a, b)
 
     def eq(self, a, b):
+        # a list that was handed to a callee which may have modified it in place ("poisoned": content unknown):
+        # comparing it with another node is an open choice; when they are equal the unknown content IS the other value
+        pa = isinstance(a, ListObj) and a.items is None and a.seq is None
+        pb = isinstance(b, ListObj) and b.items is None and b.seq is None
+        if pa or pb:
+            if pa and pb:
+                return a is b or bool(self.nondet(2) == 0)
+            other, poisoned = (b, a) if pa else (a, b)
+            if self.nondet(2) == 0:
+                if isinstance(other, ListObj) and other.items is not None:
+                    poisoned.items = list(other.items)
+                    return True
+                return False if isinstance(other, (bytes, SSeq)) else True
+            return False
         if isinstance(a, Obj) and isinstance(a.cls, ClassVal):
             f = a.cls.lookup("__eq__")
             if f is not None:
